@@ -93,7 +93,7 @@ func opsRec(ops []op2) []any {
 }
 
 func famC48(r *hx.Rng, o *hx.Out) {
-	n := hx.N(120, 3000)
+	n := hx.N(120, 1500)
 	for i := 0; i < n; i++ {
 		pool := genNames(r)
 		nops := 1 + r.Intn(7)
